@@ -296,6 +296,19 @@ LOOP:
 			}
 			r.seg = nextSeg
 			r.pos = 0
+			// The segment holding the HW may have been replaced (truncation or
+			// compaction) since its position was resolved, in which case
+			// hwSeg no longer identifies a segment of the log and nothing
+			// would stop the reader at the HW. Resolve it again.
+			if r.hwSeg != nil {
+				hwIdx, hwPos, e := getHWPos(segments, r.hw)
+				if e != nil {
+					err = e
+					break
+				}
+				r.hwSeg = segments[hwIdx]
+				r.hwPos = hwPos
+			}
 			continue
 		}
 
